@@ -123,6 +123,10 @@ func buildSource(c *c14ref.Chain) (string, *c14ref.Lines, int) {
 	s.add(`function mkIter(i, f) { return {[Symbol.iterator]: function() { var n = 0; return {next: function() { if (n++ > 0) { return {done: true}; } return {value: f ? f() : 0, done: false}; }, return: function() { log("ir", i); return {}; }}; }}; }`)
 	s.add(`function mkIterR(i, f, val) { return {[Symbol.iterator]: function() { return {next: function() { return {value: val, done: false}; }, return: function() { log("ir", i); f(); return {}; }}; }}; }`)
 	s.add(`function* gen1(f) { yield f(); }`)
+	s.add(`function* gen0(f) { f(); }`)
+	s.add(`function mkIterY(f) { var it = {next: function() { f(); return {done: true, value: 0}; }}; it[Symbol.iterator] = function() { return this; }; return it; }`)
+	s.add(`function mkIterTR(f) { var it = {next: function() { return {done: false, value: 0}; }, throw: function(x) { f(); return {done: true, value: 0}; }, return: function(x) { f(); return {done: true, value: 0}; }}; it[Symbol.iterator] = function() { return this; }; return it; }`)
+	s.add(`function* nestg(d, it) { if (d > 0) { yield* nestg(d - 1, it); } else { yield* it; } }`)
 	s.add(`function fu() {`)
 	follow := s.add(`  throw 77;`)
 	s.add(`}`)
@@ -131,7 +135,12 @@ func buildSource(c *c14ref.Chain) (string, *c14ref.Lines, int) {
 		if !f.JS {
 			continue
 		}
-		s.add(fmt.Sprintf("function f%d() {", i))
+		yv := f.Leaf == nil && c.Frames[i+1].JS && c14ref.IsYieldVia(f.Via)
+		if yv {
+			s.add(fmt.Sprintf("function* f%dg() {", i)) // the frame's body is the delegating generator
+		} else {
+			s.add(fmt.Sprintf("function f%d() {", i))
+		}
 		ind := "  "
 		if f.H != "" {
 			s.add("  try {")
@@ -192,6 +201,18 @@ func buildSource(c *c14ref.Chain) (string, *c14ref.Lines, int) {
 					stmt = fmt.Sprintf("var [d] = mkIter(%d, f%d);", i, nx)
 				case "spread":
 					stmt = fmt.Sprintf("[...mkIter(%d, f%d)];", i, nx)
+				case "ygen":
+					stmt = fmt.Sprintf("yield* gen0(f%d);", nx)
+				case "ynext":
+					stmt = fmt.Sprintf("yield* mkIterY(f%d);", nx)
+				case "ynest":
+					if (i+n)%2 == 0 {
+						stmt = fmt.Sprintf("yield* nestg(%d, mkIterY(f%d));", 1+i%2, nx)
+					} else {
+						stmt = fmt.Sprintf("yield* nestg(%d, gen0(f%d));", 1+i%2, nx)
+					}
+				case "ythrow", "yreturn":
+					stmt = fmt.Sprintf("yield* mkIterTR(f%d);", nx)
 				case "frommap":
 					stmt = fmt.Sprintf("Array.from(mkIter(%d, null), f%d);", i, nx)
 				case "closeforof":
@@ -240,6 +261,24 @@ func buildSource(c *c14ref.Chain) (string, *c14ref.Lines, int) {
 		}
 		s.add(fmt.Sprintf("  return %d;", 3000+i))
 		s.add("}")
+		if yv {
+			s.add(fmt.Sprintf("function f%d() {", i))
+			switch {
+			case f.Via == "ythrow":
+				s.add(fmt.Sprintf("  var g = f%dg(); g.next(); g.throw(0);", i))
+			case f.Via == "yreturn":
+				s.add(fmt.Sprintf("  var g = f%dg(); g.next(); g.return(0);", i))
+			default:
+				s.add([]string{
+					fmt.Sprintf("  f%dg().next();", i),
+					fmt.Sprintf("  for (var v of f%dg()) { v; }", i),
+					fmt.Sprintf("  [...f%dg()];", i),
+					fmt.Sprintf("  Array.from(f%dg());", i),
+				}[(i+n)%4])
+			}
+			s.add(fmt.Sprintf("  return %d;", 3000+i))
+			s.add("}")
+		}
 	}
 	// objects through which natives (and the host) reach script frames
 	need := func(j int, x string) {
